@@ -184,3 +184,24 @@ func first(a, _ []byte) []byte { return a }
 //@   rel[order] fless(a.k, b.k) == lexLess(a.result0, b.result0)
 //@   rel[injective] bytesEq(a.result0, b.result0) == fsame(a.k, b.k)
 //@   chain[roundtrip] (FloatBinaryKey[$KIND]).Restore(result1) : fsame(then, k)
+
+// ---------------------------------------------------------------------------
+// Layer A: node16 vector search. One contract, three bodies: the amd64
+// assembly (symbolically executed by govc/asm.go), the portable Go fallback
+// (node16_other.go, loaded with another GOARCH), and - by assumption at call
+// sites - whatever the platform links. Stale bytes beyond childrenLen are
+// unconstrained: the proofs quantify over them.
+
+//@ func searchNode16
+//@   mode bv
+//@   requires mathint(childrenLen) <= 16
+//@   ensures[first_equal_occupied] mathint(result) == first(i, 0, 16, i < mathint(childrenLen) && keys[i] == b)
+//@   assigns nothing
+//@   loop 1 unroll 16
+
+//@ func insertPosNode16
+//@   mode bv
+//@   requires mathint(childrenLen) <= 16
+//@   ensures[first_greater_occupied] mathint(result) == first(i, 0, 16, i < mathint(childrenLen) && ult(b, keys[i]))
+//@   assigns nothing
+//@   loop 1 unroll 16
